@@ -4,6 +4,7 @@ import (
 	"fmt"
 	"io"
 	"math/big"
+	"time"
 
 	"github.com/bnb-chain/tss-lib/v2/common"
 	eckeygen "github.com/bnb-chain/tss-lib/v2/ecdsa/keygen"
@@ -52,6 +53,7 @@ func NewKeygen(c KeygenCfg) (*Net, tss.SortedPartyIDs) {
 			curve = tss.Edwards()
 		}
 		params := tss.NewParameters(curve, ctx, id, len(ids), c.T)
+		params.SetSafePrimeGenTimeout(3 * time.Hour) // only matters when the library generates the pre-parameters itself
 		if c.NoProofMod {
 			params.SetNoProofMod()
 		}
@@ -73,7 +75,11 @@ func NewKeygen(c KeygenCfg) (*Net, tss.SortedPartyIDs) {
 			nd.P = edkeygen.NewLocalParty(params, nd.out, nd.endEDKey)
 		} else {
 			nd.endECKey = make(chan *eckeygen.LocalPartySaveData, 8)
-			nd.P = eckeygen.NewLocalParty(params, nd.out, nd.endECKey, c.Pre[i])
+			if c.Pre[i].PaillierSK == nil { // no pre-parameters: the library generates them in round 1
+				nd.P = eckeygen.NewLocalParty(params, nd.out, nd.endECKey)
+			} else {
+				nd.P = eckeygen.NewLocalParty(params, nd.out, nd.endECKey, c.Pre[i])
+			}
 		}
 		n.Nodes = append(n.Nodes, nd)
 	}
@@ -89,6 +95,8 @@ type SignCfg struct {
 	FullBytesLen int // < 0: argument absent
 	KDD          *big.Int
 	Rand         func(i int) io.Reader
+	// PartialKeyRand, when set, is installed with SetPartialKeyRand (the source meant for key generation's u_i).
+	PartialKeyRand func(i int) io.Reader
 	// KeyFor, when set, overrides which key data node i (sorted order) is constructed with.
 }
 
@@ -126,6 +134,9 @@ func NewSigning(c SignCfg) (*Net, tss.SortedPartyIDs, []int) {
 					params.SetRand(r)
 				}
 			}
+			if c.PartialKeyRand != nil {
+				params.SetPartialKeyRand(c.PartialKeyRand(i))
+			}
 			if c.FullBytesLen >= 0 {
 				nd.P = edsigning.NewLocalParty(c.Msg, params, c.EDKeys[ki], nd.out, nd.endSig, c.FullBytesLen)
 			} else {
@@ -137,6 +148,9 @@ func NewSigning(c SignCfg) (*Net, tss.SortedPartyIDs, []int) {
 				if r := c.Rand(i); r != nil {
 					params.SetRand(r)
 				}
+			}
+			if c.PartialKeyRand != nil {
+				params.SetPartialKeyRand(c.PartialKeyRand(i))
 			}
 			switch {
 			case c.KDD != nil && c.FullBytesLen >= 0:
@@ -190,6 +204,7 @@ func NewResharing(c ReshareCfg) (n *Net, oldIDs, newIDs tss.SortedPartyIDs, oldK
 	n = &Net{}
 	mk := func(id *tss.PartyID) *tss.ReSharingParameters {
 		p := tss.NewReSharingParameters(curve, oldCtx, newCtx, id, len(oldIDs), c.OldT, len(newIDs), c.NewT)
+		p.SetSafePrimeGenTimeout(3 * time.Hour) // only matters when the library generates the pre-parameters itself
 		if c.NoProofMod {
 			p.SetNoProofMod()
 		}
